@@ -48,38 +48,40 @@ def const_strings(b):
 def written_by(ctx, b, memo):
     """constant strings written by an override: its body, its closures and the inherent helpers of the renderer it calls (transitively);
     other visit methods are not followed - they are writers of other nodes"""
+    from collections import Counter
     if b.id in memo:
         return memo[b.id]
-    memo[b.id] = set()
-    out = set()
-    out |= set(format_literals(ctx, b))
+    memo[b.id] = Counter()
+    out = Counter(format_literals(ctx, b))
     for bd in bodies_with_closures(ctx, b):
-        out |= set(const_strings(bd))
+        out.update(const_strings(bd))
         for c in bd.calls():
             if not c.callee:
                 continue
             for cb in ctx.prog.get(c.callee):
                 im = cb.f.get("impl") or {}
                 if im.get("self") == R and not im.get("trait_def"):
-                    out |= written_by(ctx, cb, memo)
+                    out.update(written_by(ctx, cb, memo))
     memo[b.id] = out
     return out
 
 
 def words_of(strings, symbols):
-    """the words and symbol tokens a set of constant strings spells: identifiers whole, punctuation runs cut greedily into the lexer's own symbol tokens"""
-    ws = set()
+    """the words and symbol tokens a multiset of constant strings spells (token -> number of write sites): identifiers whole,
+    punctuation runs cut greedily into the lexer's own symbol tokens"""
+    from collections import Counter
+    ws = Counter()
     syms = sorted(symbols, key=len, reverse=True)
-    for s in strings:
+    for s, n in (strings.items() if hasattr(strings, "items") else ((x, 1) for x in strings)):
         for w in re.findall(r"[A-Za-z_][A-Za-z_0-9]*|[^\sA-Za-z0-9_]+", s):
             if w[0].isalpha() or w[0] == "_":
-                ws.add(w.upper())
+                ws[w.upper()] += n
                 continue
             k = 0
             while k < len(w):
                 for sy in syms:
                     if w.startswith(sy, k):
-                        ws.add(sy)
+                        ws[sy] += n
                         k += len(sy)
                         break
                 else:
@@ -184,9 +186,19 @@ def discriminant_switchers(ctx):
     """enum ADT -> bodies of the renderer or the DSL that branch on its discriminant (where a field-less variant gets its text)"""
     from vlib.mir import switch_info
     out = {}
+    # types the renderer formats (x.to_string(), format!("{}", x)): only for those does a Display/Debug impl spell anything in the output
+    formatted = set()
+    for b in ctx.prog.bodies.values():
+        if b.f["crate"] != "ironplc_plc2plc":
+            continue
+        for c in b.calls():
+            if c.callee and c.ga and ("to_string" in c.callee or "::fmt" in c.callee):
+                formatted |= set(re.findall(r"ironplc_dsl::[A-Za-z_:]*[A-Za-z_]", c.ga))
     for b in ctx.prog.bodies.values():
         if b.f["crate"] not in ("ironplc_plc2plc", "ironplc_dsl") or (b.f.get("exp") and b.f["name"] != "fmt"):
             continue        # derived code is skipped, except a derived Debug: `{:?}` of a field-less variant writes its name
+        if b.f["name"] == "fmt" and (b.f.get("impl") or {}).get("self") not in formatted:
+            continue
         for i in range(len(b.f["bbs"])):
             si = switch_info(b, i)
             if si and si["kind"] == "disc" and si.get("adt"):
@@ -239,6 +251,15 @@ def analyse(ctx):
     anc = ancestors(ctx, T, ov)
     sw = discriminant_switchers(ctx)
     reach = Trivia(g).reachable("library")
+    # node kinds that can occur in a Library at all (type containment): a node the parser converts before it builds the library
+    # (IncomplVarDecl's StringSpecification) never reaches the writer
+    cont = T.containment()
+    in_library, st = set(), ["ironplc_dsl::common::Library"]
+    while st:
+        n = st.pop()
+        if n not in in_library:
+            in_library.add(n)
+            st += list(cont.get(n, ()))
     nodes, skipped = {}, []
     # labels of which the grammar action drops a component (decided by R-C01-consume)
     from vlib.report import Report
@@ -263,6 +284,8 @@ def analyse(ctx):
         if sq is not None and sq.action is not None and not built_of.get(id(sq)) and g.rules[rn].ret and g.rules[rn].ret != "()":
             transparent.add(rn)
     top = {id(single_seq(g.rules[rn].expr) or 0) for rn in reach} | {id(a) for rn in reach if g.rules[rn].expr.kind == "choice" for a in g.rules[rn].expr.alts}
+    from collections import Counter
+    seqs = []
     for rule, s in g.all_seqs():
         if s.action is None or rule.name not in reach:
             continue
@@ -270,7 +293,7 @@ def analyse(ctx):
         terms = [t for t in terms if t[0] == "id_eq" or tt.get(t[1])]      # regex tokens are data, not delimiters
         if not terms:
             continue
-        built = built_of[id(s)]
+        built = {(a, v) for a, v in built_of[id(s)] if a in in_library}
         structs = {(a, v) for a, v in built if ctx.facts.adts[a]["kind"] == "struct"}
         units = {(a, v) for a, v in built if ctx.facts.adts[a]["kind"] == "enum" and not [x for x in ctx.facts.adts[a]["variants"] if x["name"] == v][0]["fields"]}
         payload = built - structs - units
@@ -284,37 +307,86 @@ def analyse(ctx):
         else:
             skipped.append((rule.name, terms))
             continue
+        alts = [tuple(tt[t[1]]) if t[0] == "tok" else (t[1].upper(),) for t in terms]
+        called = set()
+
+        def f(e, sq, c):
+            for pp in (e.prim, e.sep):
+                if pp is not None and pp.kind == "call":
+                    called.add(pp.name)
+        g.walk_elems(s, f)
+        seqs.append((rule.name, kind, cands, alts, called))
+    # what a writer needs for the productions of its own node: when the descendant's production is nested in one of them, only
+    # what the writer spells beyond that production's own terminals can be credited to the descendant
+    rmemo = {}
+
+    def below(rn):
+        if rn not in rmemo:
+            rmemo[rn] = Trivia(g).reachable(rn)
+        return rmemo[rn]
+    own_seqs = {}
+    for rn, kind, cands, alts, called in seqs:
+        c = Counter()
+        for al in alts:
+            for x in al:
+                c[x] += 1
+        nested = set()
+        for cn in called:
+            nested |= below(cn)
+        for a, v in cands:
+            own_seqs.setdefault(a, []).append((c, nested))
+
+    def own_need(adt, desc_rule):
+        cur = Counter()
+        for c, nested in own_seqs.get(adt, ()):
+            if desc_rule in nested:
+                for x, n in c.items():
+                    cur[x] = max(cur[x], n)
+        return cur
+    wmemo = {}
+
+    def spelled(w):
+        if w not in wmemo:
+            wmemo[w] = words_of(written_by(ctx, ov[w], memo), symbols)
+        return wmemo[w]
+    for rn, kind, cands, alts, called in seqs:
         # which of the built nodes owns the terminals?  every candidate is examined; the sequence is fine if one of them has them all
         best = None
         for a, v in sorted(cands):
             m = "visit_" + snake(a.split("::")[-1])
-            ws = set()
+            own = set(readers.get(a, set()))
             if a in by_type:
-                ws.add(by_type[a].f["name"])
-            ws |= readers.get(a, set())
-            ws |= anc.get(m, set())
-            strings = set()
-            for w in ws:
-                strings |= written_by(ctx, ov[w], memo)
+                own.add(by_type[a].f["name"])
+            words = Counter()
+            for w in own:
+                words.update(spelled(w))
+            ancs = anc.get(m, set()) - own
+            for w in ancs:
+                need = own_need(T.method_type.get(w), rn)
+                for x, n in spelled(w).items():
+                    if n - need[x] > 0:
+                        words[x] += n - need[x]
+            ws = set(own) | ancs
             if kind == "unit":
+                extra = Counter()
                 for bid in sw.get(a, ()):
                     bb = ctx.prog.bodies[bid]
                     ws.add(norm(bid).split("::")[-2] + "::" + bb.f["name"] if bb.f["crate"] != "ironplc_plc2plc" or bb.f["name"] not in ov else bb.f["name"])
-                    strings |= set(const_strings(bb)) | set(format_literals(ctx, bb))
+                    extra.update(const_strings(bb))
+                    extra.update(format_literals(ctx, bb))
                     for cb in ctx.prog.bodies.values():
                         if cb.f.get("parent") == bid:
-                            strings |= set(const_strings(cb))
-            words = words_of(strings, symbols)
+                            extra.update(const_strings(cb))
+                words.update(words_of(extra, symbols))
             missing = []
-            for t in terms:
-                alts = tt[t[1]] if t[0] == "tok" else [t[1].upper()]
-                if not any(alt in words for alt in alts):
-                    missing.append("/".join(alts))
+            for al in dict.fromkeys(alts):
+                if not any(words[x] > 0 for x in al):
+                    missing.append("/".join(al))
             cand = (len(missing), a, v, sorted(ws), missing)
             if best is None or cand[0] < best[0]:
                 best = cand
         _, a, v, ws, missing = best
-        nodes.setdefault((a, v), []).append((rule.name, kind, [("/".join(tt[t[1]]) if t[0] == "tok" else t[1].upper()) for t in terms], ws, missing))
+        nodes.setdefault((a, v), []).append((rn, kind, ["/".join(al) for al in alts], ws, missing))
     return nodes, skipped
 
 
